@@ -584,8 +584,8 @@ theorem toJsE_lexok (c : JCtx) : ∀ (e : Expr), JsOkE e = true → LexOK (toJsE
     have h' : jsIdLex n = true := by simpa [JsOkE] using h
     simp only [toJsE, LexOK]; exact ⟨lexok_jid "_global" (by decide), h'⟩
   | .var .prop n, h => by
-    simp only [JsOkE, Bool.and_eq_true] at h
-    simp only [toJsE, LexOK]; exact ⟨lexok_jid "this" (by decide), h.1⟩
+    have h' : jsIdLex n = true := by simpa [JsOkE] using h
+    simp only [toJsE, LexOK]; exact ⟨lexok_jid "this" (by decide), h'⟩
   | .un .neg a, h => by
     have := toJsE_lexok c a (by simpa [JsOkE] using h)
     simp only [toJsE, LexOK]; exact ⟨Or.inl trivial, this⟩
